@@ -11,6 +11,7 @@ import (
 // makeUnconfirmed moves every confirmed spendable output of the renter into one unconfirmed
 // output (a parent transaction that only the renter's pool knows).
 func (w *world) makeUnconfirmed() {
+	w.crowdPool()
 	bal, err := w.rn.W.Balance()
 	must(err)
 	fee := types.Siacoins(1).Div64(100)
@@ -95,4 +96,27 @@ func sign(n int) int {
 		return -1
 	}
 	return 0
+}
+
+// crowdPool makes sure the renter's pool already holds a transaction that has nothing to do with
+// the renter (a bystander paying the void) BEFORE the renter's unconfirmed parent is added, so
+// that the parent is never the first transaction of the pool.
+func (w *world) crowdPool() {
+	if w.bystander == nil {
+		return
+	}
+	for _, txn := range w.rn.CM.V2PoolTransactions() {
+		for _, in := range txn.SiacoinInputs {
+			if in.Parent.SiacoinOutput.Address == w.bystander.W.Address() {
+				return // still there
+			}
+		}
+	}
+	must(w.bystander.CatchUp(w.rn.CM, 0))
+	txn := types.V2Transaction{MinerFee: types.Siacoins(1).Div64(100), SiacoinOutputs: []types.SiacoinOutput{{Address: types.VoidAddress, Value: types.Siacoins(1)}}}
+	basis, toSign, err := w.bystander.W.FundV2Transaction(&txn, types.Siacoins(1).Add(txn.MinerFee), false)
+	must(err)
+	w.bystander.W.SignV2Inputs(&txn, toSign)
+	_, err = w.rn.CM.AddV2PoolTransactions(basis, []types.V2Transaction{txn})
+	must(err)
 }
